@@ -585,16 +585,10 @@ def model_lines(sc, obs):
     lines['FreqMeasurement'] = 'reg BusFreq,BusROCOF %s %s' % (lst(add_tokens('FreqMeasurement', sc['fm']), ';'),
                                                               lst(ops, ';'))
     lines['nq'] = nq
-    # unique parameter
     return lines
 
 
 # ------------------------------------------------------------------ property oracle (no model involved)
-
-def py_eq(a, b):
-    """Python == on canonical tokens (numbers canonicalised)"""
-    return a == b
-
 
 def oracle(sc, obs):
     """the statement of C19 evaluated on what the real code did, from the harness' own bookkeeping"""
@@ -717,10 +711,6 @@ def oracle(sc, obs):
     links, ok = link_of_users(sc)
     if ok and obs['setup'] != 'raise:KeyError' and sc['users'] and 'finder_v' in obs and not dangling:
         fm0 = reg['FreqMeasurement']
-        new = []
-        if obs['finder_new'] != '_':
-            for t in obs['finder_new'].split(','):
-                pass
         new = parse_new(obs['finder_new'])
         scope_models = ['BusFreq'] if sc['fmode'] == 'model' else ['BusFreq', 'BusROCOF']
         alldev = [(m, v[0], v[2]) for m, v in fm0] + [(GROUPS['FreqMeasurement'][0][n[0]], n[1], n[3]) for n in new]
@@ -873,25 +863,6 @@ def nontrivial(sc):
     return big and (refs or auto)
 
 
-def impl_outputs(sc, obs, lines):
-    """what the real code produced, in the output format of the driver, per stream"""
-    out = {}
-    nq = lines['nq']
-
-    def refs(ls):
-        return lst((lst(l, ',') for l in ls), '/')
-    # Collection
-    parts = [obs['assigned']['Collection']] + obs['q_pre']['Collection']
-    if 'bus_idx' in obs and len(obs['bus_idx']) == len(sc['buses']):
-        parts.append(refs(obs['bref_area'][0]) + '#' + refs(obs['bref_area'][0]))
-    out['Collection'] = ';'.join(parts)
-    return out
-
-
-def split_model(line):
-    return line.split(';')
-
-
 def check_scenarios(ctx, scs, stream_prefix=''):
     res = run_many(scs)
     lines, meta = [], []
@@ -968,13 +939,8 @@ def compare(ctx, sc, obs, per):
                 if impl != rest[0]:
                     dis('backref:StaticGen', impl, rest[0])
                 ctx.count('backref_lists', len(obs['bref_sg'][0]))
-            link_gen = rest[-1]
-            want_fail = any(d.endswith('.gen') for d in obs.get('dangling', []))
         if g == 'ACTopology':
             # mandatory bus references: model verdict per referring model; real: set-up outcome + addresses
-            anyE = any(r == 'E' for r in rest)
-            gen_dang = False
-            obs['_bus_link_E'] = anyE
             if obs['setup'] == 'ok':
                 for m, r in zip(('PV', 'Slack', 'PQ'), rest[:3]):
                     impl = ','.join(str(obs['bus_a'].index(a)) for a in obs['a_' + m]) or '-'
@@ -995,8 +961,6 @@ def compare(ctx, sc, obs, per):
     real_rej = obs['setup'] != 'ok' or 'tds_addr_err' in obs
     if (m_rej or pq_dang) != real_rej:
         dis('setup-verdict', obs['setup'] + ' ' + obs.get('tds_addr_err', ''), 'reject' if m_rej else 'accept')
-    # unique parameter stream: answered by the `uniqueAdds` function through the finder-free op
-    return
 
 
 def check_unique(ctx, res):
@@ -1046,7 +1010,7 @@ def search(ctx):
 
 
 def replay(ctx, rep):
-    sc = rep['case']
+    sc = rep.get('case', rep)          # a replay file, or a bare corpus scenario
     sc2, obs, err = _worker(sc)
     if err:
         print(err)
